@@ -100,7 +100,8 @@ def find_mutation(v, cmap):
 
 def run(ctx):
     ctx.level = "proof"
-    ok, out = coq.check_props(ctx, "C08", extra_targets=["C08/Judge.vo"])
+    coq.build(["C08/Judge.vo"])      # first, so that the Props.v output is not interleaved by make -j
+    ok, out = coq.check_props(ctx, "C08")
     if not ok:
         ctx.log(out[-3000:])
         ctx.violation("proof", {"theorems": [o for o in ctx.obligations if not o[1]], "log": out[-2000:]},
